@@ -296,18 +296,22 @@ example : storeU idU Generated.LYD_HINT_DATA [98, 58, 108, 101, 102, 116] = .ok 
 /-! ## leafref members -/
 
 /-- `sortU` is what `lyplg_type_sort_union` computes as long as every member stores its own type as `realtype` (all member types but
-    leafref): the loop over the `types` array then meets one of the two values. -/
-theorem sortUV_eq_sortU (ms : List Plug) (hown : ∀ m ∈ ms, m.ownRealtype = true) (a b : UVal) : sortUV ms a b = sortU ms a b := by
-  have hv : ∀ i : Nat, (ms[i]?.map Plug.ownRealtype).getD true = true := by
+    leafref): the loop over the `types` array then meets one of the two values — and for every member list with the repaired loop
+    (`fixes/F424.diff`), so all the ordering theorems above then hold for unions with leafref members too. -/
+theorem sortUV_eq_sortU (lrefFound : Bool) (ms : List Plug) (hown : lrefFound = true ∨ ∀ m ∈ ms, m.ownRealtype = true) (a b : UVal) :
+    sortUVWith lrefFound ms a b = sortU ms a b := by
+  have hv : ∀ i : Nat, (lrefFound || (ms[i]?.map Plug.ownRealtype).getD true) = true := by
     intro i
-    cases h : ms[i]? with
-    | none => rfl
-    | some m => exact hown m (List.mem_of_getElem? h)
-  unfold sortUV sortU
+    rcases hown with h | h
+    · rw [h]; rfl
+    · cases hg : ms[i]? with
+      | none => simp
+      | some m => simp [h m (List.mem_of_getElem? hg)]
+  unfold sortUVWith sortU
   by_cases hi : (a.idx == b.idx) = true
   · rw [if_pos hi, if_pos hi]
-  · rw [if_neg hi, if_neg hi, hv a.idx, hv b.idx]
-    simp only [if_true]
+  · rw [if_neg hi, if_neg hi]
+    simp only [hv a.idx, hv b.idx, if_true]
 
 /-- `union { type leafref { path "../a"; }  type leafref { path "../b"; } }` with `a` an int8 and `b` a string of length 2..3, both
     `require-instance false` -/
@@ -317,7 +321,7 @@ def lrefU : List Plug := [lrefPlug (MTy.base (.int .int8 [])).plug, lrefPlug (MT
     stored by two different leafref members: it returns 0 (and trips `assert(rc != 0)` in a build with assertions) although the
     compare callback says the values differ — sort is not consistent with equality for unions with two leafref members. -/
 theorem union_sort_consistent_with_eq_leafref_fails :
-    ¬ ∀ a b : UVal, UValid lrefU a → UValid lrefU b → (sortUV lrefU a b = 0 ↔ cmpEqU lrefU a b = true) := by
+    ¬ ∀ a b : UVal, UValid lrefU a → UValid lrefU b → (sortUVWith false lrefU a b = 0 ↔ cmpEqU lrefU a b = true) := by
   intro h
   have ha : UValid lrefU ⟨0, .num 1⟩ := ustored_valid ⟨Generated.LYD_HINT_DATA, [49], by decide⟩
   have hb : UValid lrefU ⟨1, .str [120, 121]⟩ := ustored_valid ⟨Generated.LYD_HINT_DATA, [120, 121], by decide⟩
@@ -328,12 +332,12 @@ theorem union_sort_consistent_with_eq_leafref_fails :
     leafref plug-in IS the target's plug-in for store / compare / print (`lrefPlug`). -/
 theorem union_sort_leafref_partial (ms : List Plug) (a b : UVal) (hi : a.idx ≠ b.idx)
     (hown : (ms[a.idx]?.map Plug.ownRealtype).getD true = true ∨ (ms[b.idx]?.map Plug.ownRealtype).getD true = true) :
-    sortUV ms a b ≠ 0 ∧ sortUV ms a b = -sortUV ms b a := by
+    sortUVWith false ms a b ≠ 0 ∧ sortUVWith false ms a b = -sortUVWith false ms b a := by
   have h1 : (a.idx == b.idx) = false := by simpa using hi
   have h2 : (b.idx == a.idx) = false := by simpa using (Ne.symm hi)
-  unfold sortUV
+  unfold sortUVWith
   rw [h1, h2]
-  simp only [Bool.false_eq_true, if_false]
+  simp only [Bool.false_eq_true, if_false, Bool.false_or]
   rcases Nat.lt_or_gt_of_ne hi with hlt | hgt
   · have hn : ¬ b.idx < a.idx := by omega
     rw [if_pos hlt, if_neg hn]
@@ -347,6 +351,6 @@ theorem union_sort_leafref_partial (ms : List Plug) (a b : UVal) (hi : a.idx ≠
     · rw [h]; simp
 
 example : storeU lrefU Generated.LYD_HINT_DATA [49] = .ok ⟨0, .num 1⟩ ∧ storeU lrefU Generated.LYD_HINT_DATA [120, 121] = .ok ⟨1, .str [120, 121]⟩ ∧
-    sortUV lrefU ⟨0, .num 1⟩ ⟨1, .str [120, 121]⟩ = 0 ∧ cmpEqU lrefU ⟨0, .num 1⟩ ⟨1, .str [120, 121]⟩ = false := by decide
+    sortUVWith false lrefU ⟨0, .num 1⟩ ⟨1, .str [120, 121]⟩ = 0 ∧ sortUVWith true lrefU ⟨0, .num 1⟩ ⟨1, .str [120, 121]⟩ = 1 ∧ cmpEqU lrefU ⟨0, .num 1⟩ ⟨1, .str [120, 121]⟩ = false := by decide
 
 end LyModel.Props.C03Union
